@@ -23,6 +23,7 @@ def run(name, all_props=False):
         ev = tempfile.mkdtemp(prefix="dgseed-ev-")
         env = dict(os.environ, VERIF_REPO=sc, VERIF_EVIDENCE_DIR=ev, VERIF_REPORT_DIR=ev, VERIF_FACTS_TAG="seed-")
         env.setdefault("VERIF_CACHE_DIR", os.path.join(VERIF, ".cache", "selftest"))
+        env.setdefault("VERIF_SKIP_ENGINE_SELFTEST", "1")
         pids = [meta["property"]] + list(meta.get("also", []))
         if all_props:
             pids = ["all"]
